@@ -1,7 +1,19 @@
 #include <yaclib/fault/inject.hpp>
 #include <yaclib/fault/injector.hpp>
+#include <yaclib/fault/verif.hpp>
 
 namespace yaclib {
+
+#ifdef YACLIB_VERIF
+namespace verif {
+
+Hooks& GetHooks() noexcept {
+  static Hooks hooks;
+  return hooks;
+}
+
+}  // namespace verif
+#endif
 
 detail::Injector* GetInjector() noexcept {
   static detail::Injector instance;
@@ -9,6 +21,11 @@ detail::Injector* GetInjector() noexcept {
 }
 
 void InjectFault() noexcept {
+#ifdef YACLIB_VERIF
+  if (auto* f = verif::GetHooks().inject; f != nullptr && f()) {
+    return;
+  }
+#endif
   GetInjector()->MaybeInject();
 }
 
